@@ -111,7 +111,10 @@ namespace ST
         {
             m_chars = is_reffed() ? move.m_chars : m_data;
             traits_t::copy(m_data, move.m_data, local_length);
+            // Leave the source as a valid empty buffer that owns only itself
+            move.m_chars = move.m_data;
             move.m_size = 0;
+            move.m_data[0] = 0;
         }
 
         buffer(const char_T *data, size_t size)
@@ -190,9 +193,12 @@ namespace ST
         {
             std::swap(m_chars, move.m_chars);
             std::swap(m_size, move.m_size);
-            traits_t::copy(m_data, move.m_data, local_length);
+            std::swap_ranges(m_data, m_data + local_length, move.m_data);
+            // A short buffer must point at its own storage, on both sides
             if (!is_reffed())
                 m_chars = m_data;
+            if (!move.is_reffed())
+                move.m_chars = move.m_data;
             return *this;
         }
 
